@@ -92,7 +92,7 @@ CHECKS.update({
 CHECKS.update({
  'C16': ('govmc', 'model_checking',
          'explicit-state BFS (validated-by-construction abstraction key) over governance operations, IBTP probes and restarts on the real executor against declared lifecycle relations and a gating predicate on stored statuses',
-         'All histories up to depth 6 (thorough 7) of submit freeze/activate/logout on appchain A, service A:s1 and destination service B:s2, conclusion of the open proposal by approval or rejection, a second independent proposal (registration of a new service A:s4) pending across them, requests A:s1->B:s2, B:s2->A:s1 and A:s4->B:s2 before/during/after each transition, and node restarts; every observed status change must be an edge of the declared state machine for that trigger or a cascade of the owning appchain, forbidden is absorbing, refused operations change nothing, approved appchain freeze/logout leaves no service usable (checked after every step: a frozen or logged-out appchain has no usable service), and each request is accepted / begin-failed (status + source notified) / rejected without record according to the stored availability of source and destination. Also: a logout of the appchain submitted on top of its open freeze / activate proposal (pausing it) and concluded either way; a second BFS over the lifecycle of a governance admin's role (freeze / activate / logout) and of a non-validating node (register / update / logout).',
+         'All histories up to depth 6 (thorough 7) of submit freeze/activate/logout on appchain A, service A:s1 and destination service B:s2, conclusion of the open proposal by approval or rejection, a second independent proposal (registration of a new service A:s4) pending across them, requests A:s1->B:s2, B:s2->A:s1 and A:s4->B:s2 before/during/after each transition, and node restarts; every observed status change must be an edge of the declared state machine for that trigger or a cascade of the owning appchain, forbidden is absorbing, refused operations change nothing, approved appchain freeze/logout leaves no service usable (checked after every step: a frozen or logged-out appchain has no usable service), and each request is accepted / begin-failed (status + source notified) / rejected without record according to the stored availability of source and destination. Also: a logout of the appchain submitted on top of its open freeze / activate proposal (pausing it) and concluded either way; a second BFS over the lifecycle of the role of a governance admin (freeze / activate / logout) and of a non-validating node (register / update / logout).',
          'declared FSMs and availability sets transcribed into the harness; abstraction merges histories differing only in heights/nonces/ids/counters; rules are covered by C03', '5 C16'),
 })
 CHECKS.update({
